@@ -44,11 +44,15 @@ Proof. differ. Qed.
 Definition w_short_args := [EFuncall (ELambda ["a"; "b"] [EPrim PList [EVar "a"; EQuote (DSym "x")]]) [I 1]].
 Lemma too_few_arguments_refuted : fst (runM 60 w_short_args) = Ok (VList [VInt 1; VSym "x"]) /\ fst (runS 60 w_short_args) = Er EArity /\ guardb 60 w_short_args = false.
 Proof. repeat split; vm_compute; reflexivity. Qed.
-(* (do ((i 0 (1+ i))) (t 5)) : an end test that is not a list is never evaluated; the loop does not end, whatever
-   the fuel *)
+(* repaired (repo_fixes/C01-6): the end test of do / do* is evaluated whatever its shape.
+   (do ((i 0 (1+ i))) (t 5)) => 5 ; (do* ((i 0 (1+ i)) (s nil (> i 2))) (s i)) => 3, in every mode, inside the guard *)
 Definition w_do_atom := [EDo false [("i", I 0, Some (EPrim PInc [EVar "i"]))] ET [I 5] []].
-Lemma do_atom_test_refuted : fst (runM 200 w_do_atom) = Er EFuel /\ fst (runS 200 w_do_atom) = Ok (VInt 5) /\ guardb 200 w_do_atom = false.
-Proof. repeat split; vm_compute; reflexivity. Qed.
+Definition w_do_var :=
+  [EDo true [("i", I 0, Some (EPrim PInc [EVar "i"])); ("s", ENil, Some (EPrim PGt [EVar "i"; I 2]))] (EVar "s") [EVar "i"] []].
+Example do_atom_test_evaluated :
+  forallb (fun m => match fst (run m 60 w_do_atom), fst (run m 60 w_do_var) with
+                    | Ok (VInt 5), Ok (VInt 3) => true | _, _ => false end) [Slip; Ref; Chk] = true.
+Proof. vm_compute; reflexivity. Qed.
 (* the loop forms evaluate their list / count / initial forms inside the scope that later holds the loop variables:
    a closure made there sees the variable instead of the outer binding of the same name
    (let ((x 10) (f nil)) (dolist (x (progn (setq f (lambda () x)) '(1 2))) nil) (funcall f))      10, Go: nil
